@@ -1746,9 +1746,9 @@ theorem GRel.of_erase {G1 G2 G1' G2' : NodeGrammar} (h1 : G1.eraseBoxed = G1'.er
         rw [ha, hb] at hr
         simp only [Option.map_some, Option.some.injEq, RuleDef.eraseBoxed] at hr
         refine Or.inr ⟨d, d', rfl, rfl, ?_, ?_, ?_⟩
-        · exact congrArg RuleDef.atom hr
-        · exact congrArg RuleDef.emit hr
-        · exact congrArg RuleDef.body hr
+        · exact (congrArg RuleDef.atom hr : _)
+        · exact (congrArg RuleDef.emit hr : _)
+        · exact (congrArg RuleDef.body hr : _)
   refine ⟨by rw [hs1, hs2]; exact hG.skipped, fun r => ?_⟩
   rcases hG.rules r with ⟨hr1, hr2⟩ | ⟨d1, d2, hr1, hr2, hatom, hemit, hbody⟩
   · rcases key h1 r with ⟨_, hb⟩ | ⟨d, d', ha, _, _⟩
@@ -1804,5 +1804,53 @@ theorem tryParse_simStar (uni : Uni) {G1 G2 : NodeGrammar} (h : GRelStar G1 G2) 
   induction h with
   | refl G => exact RelT.refl G _
   | step hG _ ih => exact RelT.trans (tryParse_sim _ _ uni hG n r i) ih
+
+mutual
+theorem Rw.refl : ∀ a : Node, Rw a a
+  | .str _ => .leaf rfl
+  | .insens _ => .leaf rfl
+  | .range _ _ => .leaf rfl
+  | .any => .leaf rfl
+  | .soi => .leaf rfl
+  | .eoi => .leaf rfl
+  | .newline => .leaf rfl
+  | .charBy _ => .leaf rfl
+  | .skipUntil _ => .leaf rfl
+  | .skipChars _ => .leaf rfl
+  | .seq _ xs => .seq (RwL.refl xs)
+  | .choice xs => .choice (RwL.refl xs)
+  | .opt a => .opt (Rw.refl a)
+  | .rep _ _ _ a => .rep (Rw.refl a)
+  | .atomicRepeat a => .atomicRepeat (Rw.refl a)
+  | .pos a => .pos (Rw.refl a)
+  | .neg a => .neg (Rw.refl a)
+  | .push a => .push (Rw.refl a)
+  | .peek => .leaf rfl
+  | .peekAll => .leaf rfl
+  | .pop => .leaf rfl
+  | .popAll => .leaf rfl
+  | .drop => .leaf rfl
+  | .peekSlice _ _ => .leaf rfl
+  | .ref r f => .ref r f
+  | .array _ a => .array (Rw.refl a)
+  | .pair a b => .pair (Rw.refl a) (Rw.refl b)
+  | .empty => .leaf rfl
+  | .alwaysFail => .leaf rfl
+theorem RwL.refl : ∀ xs : List Node, RwL xs xs
+  | [] => .nil
+  | x :: xs => .cons (Rw.refl x) (RwL.refl xs)
+end
+
+theorem GRel.refl (G : NodeGrammar) : GRel G G := by
+  refine ⟨Rw.refl _, fun r => ?_⟩
+  cases h : G.rule? r with
+  | none => exact Or.inl ⟨rfl, rfl⟩
+  | some d => exact Or.inr ⟨d, d, rfl, rfl, rfl, rfl, Rw.refl _⟩
+
+theorem GRelStar.of_erase {G1 G2 G1' G2' : NodeGrammar} (h1 : G1.eraseBoxed = G1'.eraseBoxed)
+    (h2 : G2.eraseBoxed = G2'.eraseBoxed) (h : GRelStar G1 G2) : GRelStar G1' G2' := by
+  induction h generalizing G1' G2' with
+  | refl G => exact GRelStar.step (GRel.of_erase h1 h2 (GRel.refl G)) (GRelStar.refl _)
+  | step hG _ ih => exact GRelStar.step (GRel.of_erase h1 rfl hG) (ih rfl h2)
 
 end PestTyped
